@@ -7,6 +7,8 @@ import Orda.Proofs.RgaFull
 import Orda.Proofs.DocConv
 import Orda.Proofs.DocArr
 import Orda.Proofs.DocMixed
+import Orda.Proofs.DocCausal
+import Orda.Proofs.DocLocalRemote
 namespace Orda.Props.C01
 open Orda
 
@@ -102,18 +104,18 @@ open Orda.DC in
     `Sim`-equal node tables — equal parents, shapes, container tombstones, per-key LWW state and sizes; what
     `Sim` forgets is invisible (order of keys inside an object's association list, the deletion stamp and
     identity of nodes no longer referenced) — … -/
-theorem doc_object_ops_converge {d : Doc} {l l' : List ObjOp} (hp : l.Perm l') (h : Good d l) :
+theorem doc_object_ops_converge {d : Doc} {l l' : List ObjOp} (hp : l.Perm l') (h : DC.Good d l) :
     Sim (applyAll d l) (applyAll d l') := converge_sim hp h h (sim_equivalence.refl d)
 
 open Orda.DC in
 /-- … and show the same JSON value (objects compared as key-sorted, which is how the Go side marshals maps) -/
-theorem doc_object_ops_same_view {d : Doc} {l l' : List ObjOp} (hp : l.Perm l') (h : Good d l) (hv : ViewOK d)
+theorem doc_object_ops_same_view {d : Doc} {l l' : List ObjOp} (hp : l.Perm l') (h : DC.Good d l) (hv : ViewOK d)
     (hk : ∀ o ∈ l, OpKeysND o) : (applyAll d l).view.canon = (applyAll d l').view.canon :=
   converge_view hp h hv hk
 
 open Orda.DC in
 /-- operations on different parents commute exactly (identical node lookup, identical view) -/
-theorem doc_ops_on_different_parents_commute {d : Doc} {l l' : List ObjOp} (hp : l.Perm l') (h : Good d l)
+theorem doc_ops_on_different_parents_commute {d : Doc} {l l' : List ObjOp} (hp : l.Perm l') (h : DC.Good d l)
     (hpar : l.Pairwise (fun a b => a.parent ≠ b.parent)) :
     DocEq (applyAll d l) (applyAll d l') ∧ (applyAll d l).view = (applyAll d l').view :=
   converge_docEq_diff_parents hp h hpar
@@ -166,5 +168,49 @@ theorem doc_mixed_good_is_order_free {d : Doc} {L L' : List DOp} (hp : L.Perm L'
     concurrent insert at the same place, put into the inner object, two-target update superseding that object,
     two-target delete, remove, nested put into the root) meets `GoodD` -/
 theorem doc_mixed_nonvacuous : DM.GoodD DA.Ex.base DM.Ex.L := DM.Ex.goodD
+
+/-! ### document: CAUSAL histories — operations may address nodes that other operations of the history create -/
+
+open Orda.DM Orda.DA Orda.DC Orda.DCausal in
+/-- documents, causal: `Valid d L` = every operation is applicable at the moment it is applied (so an operation that needs
+    a node created by another one comes after it).  Two valid orders `L`, `L'` of one history (pairwise distinct operation
+    identifiers; new identifiers not yet in the start document) reach `ASim`-equal documents with the same JSON value.
+    Strictly stronger than `doc_mixed_ops_converge` (`DCausal.Ex`: a put of `{"a": []}`, an insert into that new array, a put
+    into the new object — `GoodD` fails for that list).  The freshness hypothesis `FreshIn` is what unique timestamps give;
+    without it the EXCHANGE argument is false (machine-checked `DCausal.Anti`), the statement itself has no known
+    counterexample (named open part). -/
+theorem doc_causal_histories_converge {d : Doc} {L L' : List DOp} (hp : L.Perm L') (hwf : d.WF) (hd : Distinct L)
+    (hf : FreshIn d L) (hv : Valid d L) (hv' : Valid d L') :
+    ASim (applyAllD d L) (applyAllD d L') ∧
+      (ViewOK d → (∀ x ∈ objs L, OpKeysND x) → (∀ e ∈ (arrs L).flatMap flat, EKeysND e) →
+        (applyAllD d L).view.canon = (applyAllD d L').view.canon) :=
+  causal_converge_partial hp hwf hd hf hv hv'
+
+/-! ### the operations of the convergence theorems ARE what clients emit -/
+
+open Orda.DM Orda.DC Orda.DR in
+/-- in every state a replica reaches by calls and deliveries, a successful mutating document call queues exactly one
+    operation; it denotes a remote operation that is APPLICABLE in the state before the call (`GoodD`: the hypothesis of
+    the convergence theorems), with acceptable values, and applying it to the state before the call gives the state after
+    the call (excluded: an insert of zero values, which `GoodD` does not admit) -/
+theorem doc_call_emits_applicable_operation (cuid : String) (create : Bool) (r : Replica) (hl : Life cuid create r)
+    (d : Doc) (hs : r.state = .doc d) (c : Call) (hk : DP.CallKeysND c) (hm : DP.isMutating c = true) (v : Ret)
+    (hok : (r.call c).2 = .ok v) (hne : ∀ hd pos, c ≠ .dinsert hd pos []) :
+    ∃ (o : Op) (x : DOp) (d' : Doc),
+      (r.call c).1.buffer = r.buffer ++ [o] ∧ o.id = r.opId.next ∧
+      (r.call c).1.state = .doc d' ∧
+      toDOp o = some x ∧ GoodD d [x] ∧ ValuesOK x ∧ o.id.era = r.opId.era ∧
+      DocEq (applyD d x) d' :=
+  DLR.life_local_call_is_applicable_remote_op cuid create r hl d hs c hk hm v hok hne
+
+open Orda.DC Orda.DR in
+/-- … hence a second replica holding the same document (the server's copy, a subscriber after its snapshot) that receives
+    the emitted operation reaches the sender's document and JSON value -/
+theorem doc_receiver_reaches_senders_state (cuid : String) (create : Bool) (r q : Replica) (hl : Life cuid create r)
+    (d : Doc) (hs : r.state = .doc d) (hq : q.state = .doc d) (c : Call) (hk : DP.CallKeysND c)
+    (hm : DP.isMutating c = true) (v : Ret) (hok : (r.call c).2 = .ok v) :
+    ∃ (o : Op) (d' dq : Doc), (r.call c).1.buffer = r.buffer ++ [o] ∧ (r.call c).1.state = .doc d' ∧
+      (q.execRemoteBase o).1.state = .doc dq ∧ (q.execRemoteBase o).2 = none ∧ DocEq dq d' ∧ dq.view = d'.view :=
+  DLR.life_receiver_reaches_senders_state cuid create r q hl d hs hq c hk hm v hok
 
 end Orda.Props.C01
